@@ -7,10 +7,38 @@
 //! Property-level monitor (the only source of violations): at (fake) time t,
 //! `get(n)` must answer with one of the states the data of name `n` had on
 //! disk at some time in the window [max(t - TTL, t_reset), t], where a state
-//! is "absent" or a file version; in particular, when the window holds a
-//! single state the answer is determined. Every returned zone must carry the
-//! canonical spelling, the three case variants issued within one event must
-//! agree, and nothing may panic.
+//! is "absent" (or not loadable: unparsable data, a directory) or a file
+//! version; in particular, when the window holds a single state the answer is
+//! determined. Every returned zone must carry the canonical spelling, the
+//! three case variants issued within one event must agree, and nothing may
+//! panic.
+//!
+//! Reuse clause ("an unchanged file is reused"): revalidation is by
+//! modification time by design, so the harness has a *stealth* event that
+//! replaces a file's content while keeping its modification time. It is the
+//! instrument that makes re-reading observable without tracing system calls:
+//! an entry that answered with the content belonging to the modification time
+//! still on disk must keep answering with that content (whatever time passes)
+//! until the modification time changes or `reset()` is called - after which
+//! the documented "will need to re-read time zone data from disk" makes the
+//! new content mandatory.
+//!
+//! Sections (each a complete enumeration of its declared alphabet, on both
+//! back-ends):
+//!   seq-*            three names, 22 events, nothing cached at the start;
+//!   seq-*-deep       one name in focus with both sorted neighbours cached by
+//!                    a fixed prefix; adds stealth replacement, unparsable
+//!                    data, file -> directory (whole-file damage for the
+//!                    concatenated back-end), a second name differing only in
+//!                    case, and advances of TTL-1 s / 1 s / TTL+1 s;
+//!   seq-*-revalidated  the same alphabet after a prefix in which the entry in
+//!                    focus was cached, expired and revalidated once;
+//!   seq-*-solo       a database holding a single zone, so that the directory
+//!                    (index) can become empty and a names refresh can fail;
+//!                    the zoneinfo flavour opens the database through
+//!                    `TimeZoneDatabase::from_env()` with `TZDIR` set;
+//!   open-edge        constructors on missing/empty/invalid inputs, `none()`;
+//!   seq-bundled      the bundled back-end's global sorted cache.
 //!
 //! The fake clock is process-global, so histories are sharded over worker
 //! *processes* (never threads).
@@ -26,6 +54,18 @@ const TTL: u64 = 300;
 const HALF: u64 = 151; // two of these exceed the TTL, one does not
 const FULL: u64 = 301;
 const NAMES: [&str; 3] = ["A/x", "B", "c/Y"];
+/// A second file whose name differs from `NAMES[1]` only in ASCII case
+/// (file index 3 throughout).
+const TWIN: &str = "b";
+const NFILES: usize = 4;
+
+fn file_name(k: usize) -> &'static str {
+    if k < 3 {
+        NAMES[k]
+    } else {
+        TWIN
+    }
+}
 
 /// A minimal TZif v2 file: no transitions, one local time type, a footer.
 fn tiny_tzif(utoff: i32, abbr: &str) -> Vec<u8> {
@@ -55,18 +95,52 @@ fn tiny_tzif(utoff: i32, abbr: &str) -> Vec<u8> {
     out
 }
 
-/// utoff that identifies (name index, version) uniquely.
+/// Data that passes the "starts with TZif" sniff of the directory walk but is
+/// not a TZif file (the header is cut short).
+fn bad_tzif() -> Vec<u8> {
+    let mut b = b"TZif2".to_vec();
+    b.extend_from_slice(&[0u8; 15]);
+    b.extend_from_slice(&[0, 0, 0, 9]);
+    b
+}
+
+/// utoff that identifies (file index, version) uniquely.
 fn utoff_of(name: usize, version: u8) -> i32 {
     (name as i32 * 2 + version as i32) * 3600 + 1800
 }
 fn abbr_of(name: usize, version: u8) -> String {
-    format!("{}{}", ["AAA", "BBB", "CCC"][name], ["V", "W"][version as usize - 1])
+    format!("{}{}", ["AAA", "BBB", "CCC", "TWN"][name], ["V", "W"][version as usize - 1])
 }
 
 #[derive(Clone, Copy, PartialEq, Eq, Debug, PartialOrd, Ord)]
 enum St {
     Absent,
     V(u8),
+    /// present, sniffed as TZif, not parsable: a lookup must fail
+    Bad,
+    /// the path is a directory: a lookup must fail
+    Dir,
+}
+
+impl St {
+    /// Would a scan of the disk list this name?
+    fn listable(self) -> bool {
+        matches!(self, St::V(_) | St::Bad)
+    }
+}
+
+/// What a lookup answered / may answer: nothing, or (file index, version).
+#[derive(Clone, Copy, PartialEq, Eq, Debug, PartialOrd, Ord)]
+enum Ans {
+    None,
+    Z(usize, u8),
+}
+
+fn ans_of(file: usize, st: St) -> Ans {
+    match st {
+        St::V(v) => Ans::Z(file, v),
+        _ => Ans::None,
+    }
 }
 
 #[derive(Clone, Copy, Debug, PartialEq, Eq)]
@@ -84,8 +158,19 @@ enum Ev {
     Touch(usize),
     Remove(usize),
     Advance(u64),
+    /// like Write, but the modification time is the one the file has (or had
+    /// before it was removed): invisible to revalidation by design
+    Stealth(usize),
+    /// replace by data that is not TZif (new modification time)
+    WriteBad(usize),
+    /// zoneinfo: the file becomes a directory; concatenated: the whole file is
+    /// cut off after its index block (every entry's data is gone)
+    ToDir(usize),
+    /// create / remove the file `b` next to `B`
+    Twin,
 }
 
+/// The original 22-event alphabet (sections seq-zoneinfo-dir, seq-concatenated).
 fn alphabet() -> Vec<Ev> {
     let mut v = vec![];
     for n in 0..3 {
@@ -109,6 +194,48 @@ fn alphabet() -> Vec<Ev> {
     v
 }
 
+/// Focus on `B` with `A/x` and `c/Y` cached around it.
+fn alphabet_deep(quick: bool) -> Vec<Ev> {
+    let mut v = vec![
+        Ev::Get(1, 0),
+        Ev::Get(2, 1),
+        Ev::Available,
+        Ev::Reset,
+        Ev::Write(1),
+        Ev::Stealth(1),
+        Ev::WriteBad(1),
+        Ev::Remove(1),
+        Ev::ToDir(1),
+        Ev::Twin,
+        Ev::Advance(TTL - 1),
+        Ev::Advance(TTL + 1),
+    ];
+    if !quick {
+        v.push(Ev::Advance(1)); // TTL-1 then 1: exactly the TTL; then 1 more: TTL+1
+    }
+    v
+}
+
+/// A database with a single zone: removing it empties the directory / index.
+fn alphabet_solo(quick: bool) -> Vec<Ev> {
+    let mut v = vec![
+        Ev::Get(1, 0),
+        Ev::GetUnknown,
+        Ev::Available,
+        Ev::Reset,
+        Ev::Write(1),
+        Ev::WriteBad(1),
+        Ev::Remove(1),
+        Ev::Advance(HALF),
+        Ev::Advance(FULL),
+    ];
+    if !quick {
+        v.push(Ev::Stealth(1));
+        v.push(Ev::ToDir(1));
+    }
+    v
+}
+
 fn variant(name: &str, c: u8) -> String {
     match c {
         0 => name.to_string(),
@@ -117,31 +244,99 @@ fn variant(name: &str, c: u8) -> String {
     }
 }
 
-#[derive(Clone, Copy, PartialEq, Eq)]
+#[derive(Clone, Copy, PartialEq, Eq, Debug)]
 enum Kind {
     ZoneinfoDir,
     Concatenated,
+}
+
+/// How the database of a section is opened.
+#[derive(Clone, Copy, PartialEq, Eq)]
+enum Open {
+    Explicit,
+    /// `TimeZoneDatabase::from_env()` with `TZDIR` pointing at the scratch directory
+    FromEnv,
+}
+
+struct Sect {
+    key: &'static str,
+    name: &'static str,
+    kind: Kind,
+    alpha: Vec<Ev>,
+    prefix: Vec<Ev>,
+    depth: usize,
+    init: [St; NFILES],
+    /// may the last zone be removed?
+    allow_empty: bool,
+    open: Open,
+}
+
+impl Sect {
+    fn total(&self) -> u64 {
+        (self.alpha.len() as u64).pow(self.depth as u32)
+    }
+}
+
+fn sections(quick: bool) -> Vec<Sect> {
+    let a = St::Absent;
+    let v1 = St::V(1);
+    let depth = if quick { 4 } else { 5 };
+    let deep_prefix = vec![Ev::Get(0, 0), Ev::Get(2, 0)];
+    let reval_prefix = vec![Ev::Get(0, 0), Ev::Get(2, 0), Ev::Get(1, 0), Ev::Advance(FULL), Ev::Get(1, 0)];
+    vec![
+        Sect { key: "dir", name: "seq-zoneinfo-dir", kind: Kind::ZoneinfoDir, alpha: alphabet(), prefix: vec![], depth, init: [v1, v1, a, a], allow_empty: false, open: Open::Explicit },
+        Sect { key: "concat", name: "seq-concatenated", kind: Kind::Concatenated, alpha: alphabet(), prefix: vec![], depth, init: [v1, v1, a, a], allow_empty: false, open: Open::Explicit },
+        Sect { key: "dir-deep", name: "seq-zoneinfo-dir-deep", kind: Kind::ZoneinfoDir, alpha: alphabet_deep(quick), prefix: deep_prefix.clone(), depth: if quick { 5 } else { 6 }, init: [v1, v1, v1, a], allow_empty: false, open: Open::Explicit },
+        Sect { key: "concat-deep", name: "seq-concatenated-deep", kind: Kind::Concatenated, alpha: alphabet_deep(quick), prefix: deep_prefix, depth: if quick { 5 } else { 6 }, init: [v1, v1, v1, a], allow_empty: false, open: Open::Explicit },
+        // the entry in focus has been revalidated once already (its expiry was
+        // re-armed by `revalidate`, not by a load)
+        Sect { key: "dir-reval", name: "seq-zoneinfo-dir-revalidated", kind: Kind::ZoneinfoDir, alpha: alphabet_deep(quick), prefix: reval_prefix.clone(), depth: if quick { 4 } else { 5 }, init: [v1, v1, v1, a], allow_empty: false, open: Open::Explicit },
+        Sect { key: "concat-reval", name: "seq-concatenated-revalidated", kind: Kind::Concatenated, alpha: alphabet_deep(quick), prefix: reval_prefix, depth: if quick { 4 } else { 5 }, init: [v1, v1, v1, a], allow_empty: false, open: Open::Explicit },
+        Sect { key: "dir-solo", name: "seq-zoneinfo-dir-solo", kind: Kind::ZoneinfoDir, alpha: alphabet_solo(quick), prefix: vec![], depth: if quick { 5 } else { 6 }, init: [a, v1, a, a], allow_empty: true, open: Open::FromEnv },
+        Sect { key: "concat-solo", name: "seq-concatenated-solo", kind: Kind::Concatenated, alpha: alphabet_solo(quick), prefix: vec![], depth: if quick { 5 } else { 6 }, init: [a, v1, a, a], allow_empty: true, open: Open::Explicit },
+    ]
+}
+
+#[derive(Clone, Copy, PartialEq, Eq)]
+enum Stamp {
+    Fresh,
+    Older,
+    Same,
 }
 
 struct Disk {
     kind: Kind,
     root: PathBuf,
     mtime_ctr: u64,
-    /// when set, the next modification time handed out runs backwards
-    older: bool,
-    state: [St; 3],
+    /// logical content per file
+    state: [St; NFILES],
+    /// zoneinfo: the modification time last given to each file (kept across removal)
+    mtime: [Option<SystemTime>; NFILES],
+    /// identity of that modification time (0: never written)
+    mid: [u64; NFILES],
+    /// concatenated: the file's modification time and its identity
+    file_mtime: Option<SystemTime>,
+    file_mid: u64,
+    /// concatenated: the data block is cut off
+    damaged: bool,
+    hdr_toggle: bool,
 }
 
 impl Disk {
-    fn next_mtime(&mut self) -> SystemTime {
+    fn new(kind: Kind, root: PathBuf) -> Disk {
+        Disk { kind, root, mtime_ctr: 0, state: [St::Absent; NFILES], mtime: [None; NFILES], mid: [0; NFILES], file_mtime: None, file_mid: 0, damaged: false, hdr_toggle: false }
+    }
+    fn next_mtime(&mut self, older: bool) -> (SystemTime, u64) {
         self.mtime_ctr += 1;
-        if std::mem::take(&mut self.older) {
-            return SystemTime::UNIX_EPOCH + Duration::from_secs(1_500_000_000 - self.mtime_ctr * 7);
-        }
-        SystemTime::UNIX_EPOCH + Duration::from_secs(1_600_000_000 + self.mtime_ctr * 7)
+        let t = if older {
+            SystemTime::UNIX_EPOCH + Duration::from_secs(1_500_000_000 - self.mtime_ctr * 7)
+        } else {
+            SystemTime::UNIX_EPOCH + Duration::from_secs(1_600_000_000 + self.mtime_ctr * 7)
+        };
+        (t, self.mtime_ctr)
     }
     fn zone_path(&self, n: usize) -> PathBuf {
-        self.root.join(NAMES[n])
+        self.root.join(file_name(n))
     }
     fn concat_path(&self) -> PathBuf {
         self.root.join("tzdata")
@@ -158,77 +353,201 @@ impl Disk {
         drop(f);
         std::fs::rename(&tmp, path).unwrap();
     }
-    /// Bring the disk to `self.state` for name `n` (or everything for the concatenated file).
-    fn sync(&mut self, n: usize, force: bool) {
-        let m = self.next_mtime();
+    fn bytes_of(k: usize, st: St) -> Option<Vec<u8>> {
+        match st {
+            St::V(v) => Some(tiny_tzif(utoff_of(k, v), &abbr_of(k, v))),
+            St::Bad => Some(bad_tzif()),
+            St::Absent | St::Dir => None,
+        }
+    }
+    /// The state of name `n` as a lookup can see it.
+    fn effective(&self, n: usize) -> St {
+        if self.kind == Kind::Concatenated && self.damaged && self.state[n] != St::Absent {
+            return St::Bad;
+        }
+        self.state[n]
+    }
+    /// Identity of the modification time a revalidation of name `n` would read (0: no file).
+    fn mid_eff(&self, n: usize) -> u64 {
         match self.kind {
-            Kind::ZoneinfoDir => match self.state[n] {
-                St::Absent => {
-                    let _ = std::fs::remove_file(self.zone_path(n));
+            Kind::ZoneinfoDir => {
+                if self.state[n] == St::Absent {
+                    0
+                } else {
+                    self.mid[n]
                 }
-                St::V(v) => {
-                    let _ = force;
-                    Disk::write_file(&self.zone_path(n), &tiny_tzif(utoff_of(n, v), &abbr_of(n, v)), m);
-                }
-            },
+            }
             Kind::Concatenated => {
-                let mut index = vec![];
-                let mut data = vec![];
-                for k in 0..3 {
-                    if let St::V(v) = self.state[k] {
-                        let bytes = tiny_tzif(utoff_of(k, v), &abbr_of(k, v));
-                        let mut e = [0u8; 52];
-                        e[..NAMES[k].len()].copy_from_slice(NAMES[k].as_bytes());
-                        e[40..44].copy_from_slice(&(data.len() as u32).to_be_bytes());
-                        e[44..48].copy_from_slice(&(bytes.len() as u32).to_be_bytes());
-                        index.extend_from_slice(&e);
-                        data.extend_from_slice(&bytes);
-                    }
+                if self.state[n] == St::Absent {
+                    0
+                } else {
+                    self.file_mid
                 }
-                let mut out = vec![];
-                out.extend_from_slice(b"tzdata2025b\0");
-                let io = 24u32;
-                let dof = io + index.len() as u32;
-                out.extend_from_slice(&io.to_be_bytes());
-                out.extend_from_slice(&dof.to_be_bytes());
-                out.extend_from_slice(&(dof + data.len() as u32).to_be_bytes());
-                out.extend_from_slice(&index);
-                out.extend_from_slice(&data);
-                Disk::write_file(&self.concat_path(), &out, m);
             }
         }
     }
-    fn reset_to_initial(&mut self) {
-        self.state = [St::V(1), St::V(1), St::Absent];
-        for n in 0..3 {
-            self.sync(n, true);
+    /// Put name `n` into state `st` on disk.
+    fn set(&mut self, n: usize, st: St, stamp: Stamp) {
+        match self.kind {
+            Kind::ZoneinfoDir => {
+                let path = self.zone_path(n);
+                if self.state[n] == St::Dir {
+                    let _ = std::fs::remove_dir(&path);
+                }
+                let (m, id) = match (stamp, self.mtime[n]) {
+                    (Stamp::Same, Some(m)) => (m, self.mid[n]),
+                    (Stamp::Older, _) => self.next_mtime(true),
+                    _ => self.next_mtime(false),
+                };
+                match st {
+                    St::Absent => {
+                        let _ = std::fs::remove_file(&path);
+                    }
+                    St::Dir => {
+                        let _ = std::fs::remove_file(&path);
+                        std::fs::create_dir_all(&path).unwrap();
+                        if let Ok(f) = std::fs::File::open(&path) {
+                            let _ = f.set_modified(m);
+                        }
+                        self.mtime[n] = Some(m);
+                        self.mid[n] = id;
+                    }
+                    St::V(_) | St::Bad => {
+                        Disk::write_file(&path, &Disk::bytes_of(n, st).unwrap(), m);
+                        self.mtime[n] = Some(m);
+                        self.mid[n] = id;
+                    }
+                }
+                self.state[n] = st;
+            }
+            Kind::Concatenated => {
+                if st == St::Dir {
+                    self.damaged = true;
+                } else {
+                    self.damaged = false;
+                    self.state[n] = st;
+                }
+                self.write_concat(stamp);
+            }
         }
     }
-    fn open(&self) -> Result<TimeZoneDatabase, String> {
-        match self.kind {
-            Kind::ZoneinfoDir => TimeZoneDatabase::from_dir(&self.root).map_err(|e| e.to_string()),
-            Kind::Concatenated => TimeZoneDatabase::from_concatenated_path(self.concat_path()).map_err(|e| e.to_string()),
+    fn write_concat(&mut self, stamp: Stamp) {
+        let (m, id) = match (stamp, self.file_mtime) {
+            (Stamp::Same, Some(m)) => (m, self.file_mid),
+            (Stamp::Older, _) => self.next_mtime(true),
+            _ => self.next_mtime(false),
+        };
+        let mut index = vec![];
+        let mut data = vec![];
+        // index order: A/x, B, b, c/Y
+        for k in [0usize, 1, 3, 2] {
+            if let Some(bytes) = Disk::bytes_of(k, self.state[k]) {
+                let nm = file_name(k);
+                let mut e = [0u8; 52];
+                e[..nm.len()].copy_from_slice(nm.as_bytes());
+                e[40..44].copy_from_slice(&(data.len() as u32).to_be_bytes());
+                e[44..48].copy_from_slice(&(bytes.len() as u32).to_be_bytes());
+                index.extend_from_slice(&e);
+                data.extend_from_slice(&bytes);
+            }
         }
+        // the version in the header alternates between rewrites
+        self.hdr_toggle = !self.hdr_toggle;
+        let mut out = vec![];
+        out.extend_from_slice(if self.hdr_toggle { b"tzdata2025b\0" } else { b"tzdata2024a\0" });
+        let io = 24u32;
+        let dof = io + index.len() as u32;
+        out.extend_from_slice(&io.to_be_bytes());
+        out.extend_from_slice(&dof.to_be_bytes());
+        out.extend_from_slice(&(dof + data.len() as u32).to_be_bytes());
+        out.extend_from_slice(&index);
+        if !self.damaged {
+            out.extend_from_slice(&data);
+        }
+        Disk::write_file(&self.concat_path(), &out, m);
+        self.file_mtime = Some(m);
+        self.file_mid = id;
+    }
+    fn reset_to(&mut self, init: [St; NFILES]) {
+        match self.kind {
+            Kind::ZoneinfoDir => {
+                for n in 0..NFILES {
+                    if self.state[n] != St::Absent || init[n] != St::Absent {
+                        self.set(n, init[n], Stamp::Fresh);
+                    }
+                    if init[n] == St::Absent {
+                        self.mtime[n] = None;
+                        self.mid[n] = 0;
+                    }
+                }
+            }
+            Kind::Concatenated => {
+                self.state = init;
+                self.damaged = false;
+                self.write_concat(Stamp::Fresh);
+            }
+        }
+    }
+    fn open(&self, how: Open) -> Result<TimeZoneDatabase, String> {
+        match (self.kind, how) {
+            (Kind::ZoneinfoDir, Open::FromEnv) => Ok(TimeZoneDatabase::from_env()),
+            (Kind::ZoneinfoDir, Open::Explicit) => TimeZoneDatabase::from_dir(&self.root).map_err(|e| e.to_string()),
+            (Kind::Concatenated, _) => TimeZoneDatabase::from_concatenated_path(self.concat_path()).map_err(|e| e.to_string()),
+        }
+    }
+    fn present(&self) -> usize {
+        (0..NFILES).filter(|&k| self.state[k] != St::Absent).count()
     }
 }
 
-/// Time line of one name's disk state: (fake time the state began, sequence
-/// number of the event that began it, state).
-struct Line(Vec<(u64, usize, St)>);
+/// One stretch of a name's time line.
+#[derive(Clone, Copy)]
+struct Ent {
+    /// fake time the state began
+    t: u64,
+    /// sequence number of the event that began it
+    seq: usize,
+    st: St,
+    /// identity of the modification time (0: no file)
+    mid: u64,
+}
+
+/// Time line of one file's disk state.
+struct Line(Vec<Ent>);
 impl Line {
+    fn since_reset(&self, i: usize, reset_seq: usize) -> bool {
+        match self.0.get(i + 1) {
+            None => true,
+            Some(e) => e.seq > reset_seq,
+        }
+    }
+    fn in_window(&self, i: usize, now: u64, reset_seq: usize) -> bool {
+        let lo = now.saturating_sub(TTL);
+        match self.0.get(i + 1) {
+            None => true, // the current state
+            Some(e) => e.t >= lo && e.seq > reset_seq,
+        }
+    }
     /// States in force at some moment that is both within the last TTL (by the
     /// fake clock, boundaries inclusive) and after the last reset (by event
-    /// order).
-    fn admissible(&self, now: u64, reset_seq: usize) -> Vec<St> {
-        let lo = now.saturating_sub(TTL);
+    /// order). With `same_mtime`, also the states (since the last reset) that
+    /// carried the modification time of one of those: revalidation cannot tell
+    /// them apart, by design.
+    fn admissible(&self, now: u64, reset_seq: usize, same_mtime: bool) -> Vec<St> {
         let mut out = vec![];
-        for (i, &(_, _, s)) in self.0.iter().enumerate() {
-            match self.0.get(i + 1) {
-                None => out.push(s), // the current state
-                Some(&(end_t, end_seq, _)) => {
-                    if end_t >= lo && end_seq > reset_seq {
-                        out.push(s);
-                    }
+        let mut mids = vec![];
+        for (i, e) in self.0.iter().enumerate() {
+            if self.in_window(i, now, reset_seq) {
+                out.push(e.st);
+                if e.mid != 0 {
+                    mids.push(e.mid);
+                }
+            }
+        }
+        if same_mtime {
+            for (i, e) in self.0.iter().enumerate() {
+                if e.mid != 0 && mids.contains(&e.mid) && self.since_reset(i, reset_seq) {
+                    out.push(e.st);
                 }
             }
         }
@@ -236,110 +555,249 @@ impl Line {
         out.dedup();
         out
     }
+    /// Do all states of the window carry modification time `mid`? (Then an
+    /// entry validated within the window was validated against `mid`.)
+    fn window_all_mid(&self, now: u64, reset_seq: usize, mid: u64) -> bool {
+        self.0.iter().enumerate().all(|(i, e)| !self.in_window(i, now, reset_seq) || e.mid == mid)
+    }
+    /// Was version `v` on disk (since the last reset) under modification time `mid`?
+    fn had(&self, v: u8, mid: u64, reset_seq: usize) -> bool {
+        self.0.iter().enumerate().any(|(i, e)| e.st == St::V(v) && e.mid == mid && self.since_reset(i, reset_seq))
+    }
+    fn ever_present(&self) -> bool {
+        self.0.iter().any(|e| e.st != St::Absent)
+    }
 }
 
 fn observe(tz: &TimeZone) -> (i32, Option<String>) {
     (tz.to_offset(Timestamp::UNIX_EPOCH).seconds(), tz.iana_name().map(|s| s.to_string()))
 }
 
-/// Run one history. Returns the number of lookups checked.
-fn run_history(r: &Report, sec: &str, disk: &mut Disk, evs: &[Ev], hist_id: &str) -> u64 {
-    disk.reset_to_initial();
-    let db = match disk.open() {
+/// Which (file, version) carries this offset?
+fn decode(off: i32) -> Option<(usize, u8)> {
+    for k in 0..NFILES {
+        for v in 1..=2u8 {
+            if utoff_of(k, v) == off {
+                return Some((k, v));
+            }
+        }
+    }
+    None
+}
+
+#[derive(Default)]
+struct Tally {
+    checked: u64,
+    reuse_required: u64,
+    reuse_required_content_differs: u64,
+    reuse_required_after_ttl: u64,
+    lookups_unloadable_determined: u64,
+    lookups_after_reset_of_stealth_change: u64,
+    twin_answers: u64,
+    twin_none_while_one_twin_loadable: u64,
+    available_excluded_empty_disk: u64,
+    available_checked: u64,
+}
+
+/// Run one history.
+fn run_history(r: &Report, s: &Sect, disk: &mut Disk, evs: &[Ev], hist_id: &str, tl: &mut Tally) {
+    let sec = s.name;
+    disk.reset_to(s.init);
+    let db = match disk.open(s.open) {
         Ok(db) => db,
         Err(e) => {
             r.viol(sec, "open/fails", hist_id.to_string(), e);
-            return 0;
+            return;
         }
     };
+    // "A TimeZoneDatabase can be cheaply cloned. It will share a thread safe
+    // cache with other copies": the second case variant of every lookup and
+    // every other reset go through a clone.
+    let db2 = db.clone();
     let mut now: u64 = 0; // fake seconds since the database was opened
     let mut reset_seq: usize = 0;
-    let mut lines: Vec<Line> = (0..3).map(|n| Line(vec![(0, 0, disk.state[n])])).collect();
-    let mut checked = 0;
+    let mut lines: Vec<Line> = (0..NFILES).map(|n| Line(vec![Ent { t: 0, seq: 0, st: disk.effective(n), mid: disk.mid_eff(n) }])).collect();
+    // reuse monitor: the last answer of each name that was the content
+    // belonging to the modification time then on disk: (answer, seq, fake time)
+    let mut last_ans: [Option<(Ans, usize, u64)>; 3] = [None; 3];
+    // sequence number of the last event that changed the modification time a lookup of the name depends on
+    let mut chg_seq: [usize; 3] = [0; 3];
+    // sequence number of the last stealth change per name
+    let mut stealth_seq: [usize; 3] = [0; 3];
+    // global time line: (fake time, seq, state of every file) at every disk event
+    let snapshot = |d: &Disk| -> [St; NFILES] { [d.effective(0), d.effective(1), d.effective(2), d.effective(3)] };
+    let mut glob: Vec<(u64, usize, [St; NFILES])> = vec![(0, 0, snapshot(disk))];
     for (step, ev) in evs.iter().enumerate() {
         let case = || format!("{} step {} of {:?}", hist_id, step, evs);
         let seq = step + 1;
+        let mut disk_event: Option<(usize, bool)> = None; // (file, changes the modification time)
         match *ev {
-            Ev::Advance(s) => {
-                jiff::__verif_advance_monotonic(Duration::from_secs(s));
-                now += s;
+            Ev::Advance(secs) => {
+                jiff::__verif_advance_monotonic(Duration::from_secs(secs));
+                now += secs;
             }
             Ev::Reset => {
-                if let Err(p) = guard(|| db.reset()) {
+                let which = if seq % 2 == 0 { &db2 } else { &db };
+                if let Err(p) = guard(|| which.reset()) {
                     r.viol(sec, &format!("reset/{}", panic_sig(&p)), case(), p);
                 }
                 reset_seq = seq;
             }
-            Ev::Write(n) | Ev::WriteOld(n) => {
-                disk.older = matches!(*ev, Ev::WriteOld(_));
-                disk.state[n] = match disk.state[n] {
-                    St::Absent => St::V(1),
+            Ev::Write(n) | Ev::WriteOld(n) | Ev::Stealth(n) => {
+                let next = match disk.state[n] {
                     St::V(1) => St::V(2),
                     St::V(_) => St::V(1),
+                    _ => St::V(1),
                 };
-                disk.sync(n, false);
-                lines[n].0.push((now, seq, disk.state[n]));
+                let stamp = match *ev {
+                    Ev::WriteOld(_) => Stamp::Older,
+                    Ev::Stealth(_) => Stamp::Same,
+                    _ => Stamp::Fresh,
+                };
+                disk.set(n, next, stamp);
+                disk_event = Some((n, stamp != Stamp::Same));
+                if stamp == Stamp::Same && n < 3 {
+                    stealth_seq[n] = seq;
+                }
             }
             Ev::Touch(n) => {
-                if disk.state[n] != St::Absent {
-                    disk.sync(n, true);
+                if matches!(disk.state[n], St::V(_)) {
+                    disk.set(n, disk.state[n], Stamp::Fresh);
+                    disk_event = Some((n, true));
+                }
+            }
+            Ev::WriteBad(n) => {
+                disk.set(n, St::Bad, Stamp::Fresh);
+                disk_event = Some((n, true));
+            }
+            Ev::ToDir(n) => {
+                disk.set(n, St::Dir, Stamp::Fresh);
+                disk_event = Some((n, true));
+            }
+            Ev::Twin => {
+                let next = if disk.state[3] == St::Absent { St::V(1) } else { St::Absent };
+                if next != St::Absent || disk.present() > 1 {
+                    disk.set(3, next, Stamp::Fresh);
+                    disk_event = Some((3, true));
                 }
             }
             Ev::Remove(n) => {
-                // the concatenated file must keep at least one zone
-                let others = (0..3).filter(|&k| k != n && disk.state[k] != St::Absent).count();
-                if disk.state[n] != St::Absent && others > 0 {
-                    disk.state[n] = St::Absent;
-                    disk.sync(n, false);
-                    lines[n].0.push((now, seq, St::Absent));
+                // the main sections keep at least one zone on disk
+                let others = (0..NFILES).filter(|&k| k != n && disk.state[k] != St::Absent).count();
+                if disk.state[n] != St::Absent && (others > 0 || s.allow_empty) {
+                    disk.set(n, St::Absent, Stamp::Fresh);
+                    disk_event = Some((n, true));
                 }
             }
             Ev::Get(n, first) => {
-                let adm = lines[n].admissible(now, reset_seq);
+                // answers the window admits (plus same-modification-time content)
+                let mut adm: Vec<Ans> = lines[n].admissible(now, reset_seq, true).into_iter().map(|st| ans_of(n, st)).collect();
+                let twin_in_play = n == 1 && lines[3].ever_present();
+                if twin_in_play {
+                    // Excluded from the stated property (lookups ignore ASCII
+                    // case, so with `B` and `b` both known to the database it
+                    // is unspecified which of the two a query resolves to -
+                    // including a twin that has meanwhile become unloadable):
+                    // any answer either twin admits is admitted.
+                    adm.extend(lines[3].admissible(now, reset_seq, true).into_iter().map(|st| ans_of(3, st)));
+                }
+                adm.sort();
+                adm.dedup();
                 let mut answers: Vec<Option<(i32, Option<String>)>> = vec![];
                 for k in 0..3 {
                     let c = (first + k) % 3;
                     let q = variant(NAMES[n], c);
-                    match guard(|| db.get(&q).ok()) {
+                    let which = if k == 1 { &db2 } else { &db };
+                    match guard(|| which.get(&q).ok()) {
                         Err(p) => {
                             r.viol(sec, &format!("get/{}", panic_sig(&p)), case(), p);
-                            return checked;
+                            return;
                         }
                         Ok(tz) => answers.push(tz.as_ref().map(observe)),
                     }
-                    checked += 1;
+                    tl.checked += 1;
                 }
+                if adm == vec![Ans::None] && lines[n].admissible(now, reset_seq, true).iter().any(|st| matches!(st, St::Bad | St::Dir)) {
+                    tl.lookups_unloadable_determined += 1;
+                }
+                if adm.len() == 1 && stealth_seq[n] != 0 && reset_seq > stealth_seq[n] && chg_seq[n] < stealth_seq[n] {
+                    tl.lookups_after_reset_of_stealth_change += 1;
+                }
+                if twin_in_play && answers.iter().any(|a| a.is_none()) {
+                    let b_ok = lines[1].admissible(now, reset_seq, true).iter().all(|st| matches!(st, St::V(_)));
+                    let t_ok = lines[3].admissible(now, reset_seq, true).iter().all(|st| matches!(st, St::V(_)));
+                    if b_ok || t_ok {
+                        tl.twin_none_while_one_twin_loadable += 1;
+                    }
+                }
+                let mut decoded: Vec<Ans> = vec![];
                 for a in &answers {
-                    let st = match a {
-                        None => St::Absent,
-                        Some((off, name)) => {
-                            let found = (1..=2u8).find(|&v| utoff_of(n, v) == *off);
-                            match found {
-                                Some(v) => {
-                                    if name.as_deref() != Some(NAMES[n]) {
-                                        r.viol(sec, "get/not-canonical-spelling", case(), format!("iana_name {:?}, want {}", name, NAMES[n]));
-                                    }
-                                    St::V(v)
+                    let got = match a {
+                        None => Ans::None,
+                        Some((off, name)) => match decode(*off) {
+                            Some((k, v)) if k == n || (n == 1 && k == 3) => {
+                                if name.as_deref() != Some(file_name(k)) {
+                                    r.viol(sec, "get/not-canonical-spelling", case(), format!("iana_name {:?}, want {}", name, file_name(k)));
                                 }
-                                None => {
-                                    r.viol(sec, "get/returns-data-of-no-version-of-that-name", case(), format!("offset {} name {:?} for query {}", off, name, NAMES[n]));
-                                    continue;
+                                if k == 3 {
+                                    tl.twin_answers += 1;
                                 }
+                                Ans::Z(k, v)
                             }
-                        }
+                            _ => {
+                                r.viol(sec, "get/returns-data-of-no-version-of-that-name", case(), format!("offset {} name {:?} for query {}", off, name, NAMES[n]));
+                                continue;
+                            }
+                        },
                     };
-                    if !adm.contains(&st) {
+                    decoded.push(got);
+                    if !adm.contains(&got) {
                         let class = if adm.len() == 1 { "fresh-state-determined" } else { "window" };
                         r.viol(
                             sec,
                             &format!("get/answer-not-admissible:{}", class),
                             case(),
-                            format!("answered {:?}; states of {} on disk during [t-TTL|reset, t] = {:?} (t={})", st, NAMES[n], adm, now),
+                            format!("answered {:?}; states of {} on disk during [t-TTL|reset, t] = {:?} (t={})", got, NAMES[n], adm, now),
                         );
                     }
                 }
                 if answers.windows(2).any(|w| w[0] != w[1]) {
                     r.viol(sec, "get/case-variants-disagree", case(), format!("{:?}", answers));
+                }
+                // reuse: an entry that answered with the content belonging to
+                // the modification time still on disk keeps answering with it
+                if !twin_in_play {
+                    if let Some((a, p, tp)) = last_ans[n] {
+                        if p > reset_seq && chg_seq[n] < p {
+                            tl.reuse_required += 1;
+                            let differs = ans_of(n, disk.effective(n)) != a;
+                            if differs {
+                                tl.reuse_required_content_differs += 1;
+                            }
+                            if now - tp > TTL {
+                                tl.reuse_required_after_ttl += 1;
+                            }
+                            if decoded.iter().any(|g| *g != a) {
+                                let class = if differs { "content-replaced-under-same-mtime" } else { "content-unchanged" };
+                                r.viol(
+                                    sec,
+                                    &format!("get/unchanged-mtime-entry-not-reused:{}", class),
+                                    case(),
+                                    format!("answered {:?}; the lookup at step {} answered {:?} and neither the modification time changed nor reset() was called since (t={})", decoded, p - 1, a, now),
+                                );
+                            }
+                        }
+                    }
+                    // arm for the next lookup
+                    last_ans[n] = None;
+                    if let (Some(&Ans::Z(k, v)), true) = (decoded.first(), decoded.len() == 3 && decoded.windows(2).all(|w| w[0] == w[1])) {
+                        let cur = disk.mid_eff(k);
+                        if cur != 0 && lines[k].window_all_mid(now, reset_seq, cur) && lines[k].had(v, cur, reset_seq) {
+                            last_ans[n] = Some((Ans::Z(k, v), seq, now));
+                        }
+                    }
+                } else {
+                    last_ans[n] = None;
                 }
                 r.outcome(&format!("{:?}", answers[0].as_ref().map(|x| x.0)), 1);
             }
@@ -350,31 +808,69 @@ fn run_history(r: &Report, sec: &str, disk: &mut Disk, evs: &[Ev], hist_id: &str
                         Ok(Some(tz)) => r.viol(sec, "get/unknown-name-found", case(), format!("{} -> {:?}", q, observe(&tz))),
                         Ok(None) => {}
                     }
-                    checked += 1;
+                    tl.checked += 1;
                 }
             }
             Ev::Available => match guard(|| db.available().map(|n| n.as_str().to_string()).collect::<Vec<_>>()) {
                 Err(p) => r.viol(sec, &format!("available/{}", panic_sig(&p)), case(), p),
                 Ok(list) => {
-                    checked += 1;
-                    for n in 0..3 {
-                        let adm = lines[n].admissible(now, reset_seq);
-                        let listed = list.iter().any(|x| x == NAMES[n]);
-                        if listed && adm == vec![St::Absent] {
-                            r.viol(sec, "available/lists-name-absent-for-whole-window", case(), format!("{} listed in {:?}", NAMES[n], list));
+                    tl.checked += 1;
+                    let adm: Vec<Vec<St>> = (0..NFILES).map(|k| lines[k].admissible(now, reset_seq, false)).collect();
+                    // Excluded (in-code contract of `refresh`: "If an error occurs
+                    // when fetching the names, then no names are updated"): when
+                    // the disk held no name at all at some moment of the window,
+                    // a refresh then failed and the last good list stands.
+                    let lo = now.saturating_sub(TTL);
+                    let disk_was_empty = glob.iter().enumerate().any(|(i, g)| {
+                        let in_window = match glob.get(i + 1) {
+                            None => true,
+                            Some(nx) => nx.0 >= lo && nx.1 > reset_seq,
+                        };
+                        in_window && g.2.iter().all(|st| !st.listable())
+                    });
+                    if disk_was_empty {
+                        tl.available_excluded_empty_disk += 1;
+                    } else {
+                        tl.available_checked += 1;
+                    }
+                    for k in 0..NFILES {
+                        let listed = list.iter().any(|x| x == file_name(k));
+                        if k == 3 && !lines[3].ever_present() {
+                            continue;
                         }
-                        if !listed && !adm.contains(&St::Absent) {
-                            r.viol(sec, "available/misses-name-present-for-whole-window", case(), format!("{} not in {:?}", NAMES[n], list));
+                        if listed && adm[k].iter().all(|st| !st.listable()) && !disk_was_empty {
+                            r.viol(sec, "available/lists-name-absent-for-whole-window", case(), format!("{} listed in {:?}", file_name(k), list));
+                        }
+                        if !listed && adm[k].iter().all(|st| st.listable()) {
+                            r.viol(sec, "available/misses-name-present-for-whole-window", case(), format!("{} not in {:?}", file_name(k), list));
                         }
                     }
-                    if list.iter().any(|x| !NAMES.contains(&x.as_str())) {
+                    if list.iter().any(|x| !NAMES.contains(&x.as_str()) && !(x == TWIN && lines[3].ever_present())) {
                         r.viol(sec, "available/lists-unknown-name", case(), format!("{:?}", list));
                     }
                 }
             },
         }
+        if let Some((file, changes_mtime)) = disk_event {
+            if changes_mtime {
+                match disk.kind {
+                    Kind::ZoneinfoDir => {
+                        let n = if file == 3 { 1 } else { file };
+                        chg_seq[n] = seq;
+                    }
+                    Kind::Concatenated => chg_seq = [seq; 3],
+                }
+            }
+            glob.push((now, seq, snapshot(disk)));
+            for k in 0..NFILES {
+                let cur = (disk.effective(k), disk.mid_eff(k));
+                let last = lines[k].0.last().unwrap();
+                if (last.st, last.mid) != cur {
+                    lines[k].0.push(Ent { t: now, seq, st: cur.0, mid: cur.1 });
+                }
+            }
+        }
     }
-    checked
 }
 
 fn history_of(mut idx: u64, alpha: &[Ev], depth: usize) -> Vec<Ev> {
@@ -386,66 +882,368 @@ fn history_of(mut idx: u64, alpha: &[Ev], depth: usize) -> Vec<Ev> {
     v
 }
 
+/// Scratch base directory (per-process subdirectories and worker result files
+/// live below it). `C19_SCRATCH` overrides; the default is a memory-backed
+/// directory when there is one (the histories are file-system-call bound and
+/// a journalled disk shared with other jobs costs an order of magnitude), else
+/// the build tree.
+fn scratch_base() -> String {
+    let b = match std::env::var("C19_SCRATCH") {
+        Ok(b) => b,
+        Err(_) => {
+            let shm = "/dev/shm/verif-c19";
+            if std::fs::create_dir_all(shm).is_ok() {
+                shm.to_string()
+            } else {
+                "/verif/.build/c19".to_string()
+            }
+        }
+    };
+    let _ = std::fs::create_dir_all(&b);
+    b
+}
+
+// ---------------------------------------------------------------------------
+// open-edge: constructors on missing / empty / invalid inputs, none()
+
+fn open_edge(r: &Report) {
+    let sec = "open-edge";
+    let root = PathBuf::from(format!("{}/edge-{}", scratch_base(), std::process::id()));
+    let _ = std::fs::remove_dir_all(&root);
+    std::fs::create_dir_all(&root).unwrap();
+    let mut n = 0u64;
+    // from_dir: "This returns an error if the given directory does not contain
+    // a valid copy of the Time Zone Database. Generally, this means a
+    // directory with at least one valid TZif file."
+    let missing = root.join("missing");
+    let empty = root.join("empty");
+    std::fs::create_dir_all(&empty).unwrap();
+    let nontz = root.join("nontz");
+    std::fs::create_dir_all(nontz.join("sub")).unwrap();
+    std::fs::write(nontz.join("README"), b"not a zone").unwrap();
+    std::fs::write(nontz.join("sub/short"), b"TZ").unwrap();
+    let afile = root.join("afile");
+    std::fs::write(&afile, tiny_tzif(3600, "XXX")).unwrap();
+    for (label, p) in [("missing", &missing), ("empty-directory", &empty), ("directory-without-tzif", &nontz), ("path-is-a-file", &afile)] {
+        n += 1;
+        match guard(|| TimeZoneDatabase::from_dir(p).map(|db| db.available().count())) {
+            Err(pn) => r.viol(sec, &format!("from_dir/{}", panic_sig(&pn)), label.to_string(), pn),
+            Ok(Ok(cnt)) => r.viol(sec, "from_dir/ok-without-any-zone", label.to_string(), format!("from_dir succeeded, available().count() = {}", cnt)),
+            Ok(Err(_)) => r.outcome("open-edge: from_dir error", 1),
+        }
+    }
+    // from_concatenated_path: "an error if the given path does not contain a
+    // valid copy of the concatenated Time Zone Database"
+    let c_empty = root.join("c-empty");
+    std::fs::write(&c_empty, b"").unwrap();
+    let c_garbage = root.join("c-garbage");
+    std::fs::write(&c_garbage, vec![0x55u8; 64]).unwrap();
+    let c_noentries = root.join("c-noentries");
+    {
+        let mut out = b"tzdata2025b\0".to_vec();
+        for x in [24u32, 24, 24] {
+            out.extend_from_slice(&x.to_be_bytes());
+        }
+        std::fs::write(&c_noentries, out).unwrap();
+    }
+    let c_badoffsets = root.join("c-badoffsets");
+    {
+        let mut out = b"tzdata2025b\0".to_vec();
+        for x in [100u32, 24, 24] {
+            out.extend_from_slice(&x.to_be_bytes());
+        }
+        std::fs::write(&c_badoffsets, out).unwrap();
+    }
+    let c_ragged = root.join("c-ragged-index");
+    {
+        let mut out = b"tzdata2025b\0".to_vec();
+        for x in [24u32, 24 + 51, 24 + 51] {
+            out.extend_from_slice(&x.to_be_bytes());
+        }
+        out.extend_from_slice(&[b'A'; 51]);
+        std::fs::write(&c_ragged, out).unwrap();
+    }
+    let c_cutindex = root.join("c-index-beyond-eof");
+    {
+        let mut out = b"tzdata2025b\0".to_vec();
+        for x in [24u32, 24 + 52, 24 + 52] {
+            out.extend_from_slice(&x.to_be_bytes());
+        }
+        out.extend_from_slice(&[b'A'; 20]);
+        std::fs::write(&c_cutindex, out).unwrap();
+    }
+    for (label, p) in [
+        ("missing", &missing),
+        ("path-is-a-directory", &empty),
+        ("empty-file", &c_empty),
+        ("garbage", &c_garbage),
+        ("no-index-entries", &c_noentries),
+        ("index-offset-after-data-offset", &c_badoffsets),
+        ("index-length-not-a-multiple-of-52", &c_ragged),
+        ("index-beyond-end-of-file", &c_cutindex),
+    ] {
+        n += 1;
+        match guard(|| TimeZoneDatabase::from_concatenated_path(p).map(|db| db.available().count())) {
+            Err(pn) => r.viol(sec, &format!("from_concatenated_path/{}", panic_sig(&pn)), label.to_string(), pn),
+            Ok(Ok(cnt)) => r.viol(sec, "from_concatenated_path/ok-without-any-zone", label.to_string(), format!("succeeded, available().count() = {}", cnt)),
+            Ok(Err(_)) => r.outcome("open-edge: from_concatenated_path error", 1),
+        }
+    }
+    // none(): "a database for which all time zone lookups fail"
+    n += 1;
+    match guard(|| {
+        let db = TimeZoneDatabase::none();
+        let mut bad = vec![];
+        for q in ["UTC", "Etc/Unknown", "America/New_York", "B", ""] {
+            if db.get(q).is_ok() {
+                bad.push(format!("get({:?}) succeeded", q));
+            }
+        }
+        if db.available().count() != 0 {
+            bad.push("available() not empty".to_string());
+        }
+        if !db.is_definitively_empty() {
+            bad.push("is_definitively_empty() false".to_string());
+        }
+        db.reset();
+        db.clone().reset();
+        if db.get("UTC").is_ok() {
+            bad.push("get(\"UTC\") succeeded after reset".to_string());
+        }
+        bad
+    }) {
+        Err(pn) => r.viol(sec, &format!("none/{}", panic_sig(&pn)), "none()".to_string(), pn),
+        Ok(bad) => {
+            if !bad.is_empty() {
+                r.viol(sec, "none/lookup-does-not-fail", "none()".to_string(), bad.join("; "));
+            } else {
+                r.outcome("open-edge: none() fails everything", 1);
+            }
+        }
+    }
+    // A database whose whole directory disappears and comes back.
+    n += 1;
+    let live = root.join("live");
+    let put = |ver: u8| {
+        Disk::write_file(&live.join("B"), &tiny_tzif(utoff_of(1, ver), &abbr_of(1, ver)), SystemTime::UNIX_EPOCH + Duration::from_secs(1_600_000_000 + ver as u64));
+    };
+    put(1);
+    match guard(|| {
+        let mut bad = vec![];
+        let db = TimeZoneDatabase::from_dir(&live).map_err(|e| e.to_string())?;
+        let o = |db: &TimeZoneDatabase, q: &str| db.get(q).ok().map(|t| observe(&t).0);
+        if o(&db, "b") != Some(utoff_of(1, 1)) {
+            bad.push(format!("first get: {:?}", o(&db, "b")));
+        }
+        std::fs::remove_dir_all(&live).unwrap();
+        db.reset();
+        if o(&db, "B").is_some() {
+            bad.push("get succeeded after the directory was removed and reset() called".to_string());
+        }
+        let av: Vec<String> = db.available().map(|n| n.as_str().to_string()).collect();
+        if !av.is_empty() {
+            bad.push(format!("available() after the directory was removed and reset() called: {:?}", av));
+        }
+        put(2);
+        db.reset();
+        if o(&db, "B") != Some(utoff_of(1, 2)) {
+            bad.push(format!("get after the directory came back and reset(): {:?}", o(&db, "B")));
+        }
+        Ok::<_, String>(bad)
+    }) {
+        Err(pn) => r.viol(sec, &format!("from_dir-directory-removed/{}", panic_sig(&pn)), "live".to_string(), pn),
+        Ok(Err(e)) => r.viol(sec, "open/fails", "open-edge live".to_string(), e),
+        Ok(Ok(bad)) => {
+            if !bad.is_empty() {
+                r.viol(sec, "get/wrong-after-directory-removed-and-restored", "open-edge live".to_string(), bad.join("; "));
+            } else {
+                r.outcome("open-edge: directory removed and restored", 1);
+            }
+        }
+    }
+    let _ = std::fs::remove_dir_all(&root);
+    r.add_states(n);
+    r.add_transitions(n);
+    r.add_validated(n);
+    r.count("open_edge_cases", n);
+}
+
+// ---------------------------------------------------------------------------
+// seq-bundled: the bundled back-end keeps one process-global cache, sorted by
+// name, that `reset()` clears. Histories over {get(4 names x 2 spellings),
+// get(unknown), available, reset}; every history starts with a reset. Oracle:
+// the zone parsed directly from the bundled bytes of that name.
+
+fn seq_bundled(r: &Report) {
+    let sec = "seq-bundled";
+    // first / middle / middle / last of the sorted name list, so that cache
+    // insertions happen before, between and after cached names
+    let names = ["Africa/Abidjan", "Asia/Tokyo", "Europe/London", "Zulu"];
+    let probes: Vec<Timestamp> = [-2_000_000_000i64, 0, 1_000_000_000, 1_720_000_000, 4_000_000_000].iter().map(|&s| Timestamp::from_second(s).unwrap()).collect();
+    let sig_of = |tz: &TimeZone| -> (Vec<i32>, Option<String>) { (probes.iter().map(|&p| tz.to_offset(p).seconds()).collect(), tz.iana_name().map(|s| s.to_string())) };
+    let mut want = vec![];
+    for n in names {
+        let Some((canon, bytes)) = jiff_tzdb::get(n) else {
+            r.require(false, "bundled data holds the four probe zones");
+            return;
+        };
+        let tz = TimeZone::tzif(canon, bytes).expect("bundled TZif parses");
+        want.push(sig_of(&tz));
+    }
+    r.require(want.iter().map(|w| &w.0).collect::<std::collections::BTreeSet<_>>().len() >= 3, "the bundled probe zones are distinguishable");
+    // events: 0..8 get(name = e/2, spelling = e%2), 8 unknown, 9 available, 10 reset
+    let nev = 11u64;
+    let depth = if r.quick() { 4 } else { 5 };
+    let total = nev.pow(depth);
+    let db = TimeZoneDatabase::bundled();
+    let db2 = db.clone();
+    let mut lookups = 0u64;
+    for idx in 0..total {
+        let mut evs = vec![];
+        let mut x = idx;
+        for _ in 0..depth {
+            evs.push(x % nev);
+            x /= nev;
+        }
+        let id = format!("bundled#{} {:?}", idx, evs);
+        if let Some(c) = &r.only_case {
+            if !c.starts_with(&format!("bundled#{} ", idx)) {
+                continue;
+            }
+        }
+        db.reset();
+        for (step, &e) in evs.iter().enumerate() {
+            let case = || format!("{} step {}", id, step);
+            let which = if step % 2 == 0 { &db } else { &db2 };
+            match e {
+                0..=7 => {
+                    let n = (e / 2) as usize;
+                    let q = if e % 2 == 0 { names[n].to_string() } else { names[n].to_ascii_lowercase() };
+                    lookups += 1;
+                    match guard(|| which.get(&q).ok().map(|tz| sig_of(&tz))) {
+                        Err(p) => r.viol(sec, &format!("bundled-get/{}", panic_sig(&p)), case(), p),
+                        Ok(None) => r.viol(sec, "bundled-get/known-name-not-found", case(), q),
+                        Ok(Some(got)) => {
+                            if got != want[n] {
+                                let sig = if got.0 != want[n].0 { "bundled-get/returns-other-data" } else { "bundled-get/not-canonical-spelling" };
+                                r.viol(sec, sig, case(), format!("get({:?}) = {:?}, want {:?}", q, got, want[n]));
+                            }
+                        }
+                    }
+                }
+                8 => {
+                    lookups += 1;
+                    match guard(|| which.get("Does/NotExist").is_ok()) {
+                        Err(p) => r.viol(sec, &format!("bundled-get/{}", panic_sig(&p)), case(), p),
+                        Ok(true) => r.viol(sec, "bundled-get/unknown-name-found", case(), "Does/NotExist"),
+                        Ok(false) => {}
+                    }
+                }
+                9 => {
+                    lookups += 1;
+                    match guard(|| which.available().map(|n| n.as_str().to_string()).collect::<Vec<_>>()) {
+                        Err(p) => r.viol(sec, &format!("bundled-available/{}", panic_sig(&p)), case(), p),
+                        Ok(list) => {
+                            if names.iter().any(|n| !list.iter().any(|x| x == n)) {
+                                r.viol(sec, "bundled-available/misses-name", case(), format!("{} names listed", list.len()));
+                            }
+                        }
+                    }
+                }
+                _ => {
+                    if let Err(p) = guard(|| which.reset()) {
+                        r.viol(sec, &format!("bundled-reset/{}", panic_sig(&p)), case(), p);
+                    }
+                }
+            }
+        }
+    }
+    r.add_states(total);
+    r.add_transitions(total * depth as u64);
+    r.add_validated(lookups);
+    r.count("histories_bundled", total);
+    r.count("bundled_lookups", lookups);
+}
+
 fn main() {
     let args: Vec<String> = std::env::args().collect();
     let worker = args.iter().position(|a| a == "--worker").map(|i| args[i + 1].clone());
     let r = Report::from_args("C19");
-    let alpha = alphabet();
-    let depth = if r.quick() { 4 } else { 5 };
-    let total = (alpha.len() as u64).pow(depth as u32);
+    let sects = sections(r.quick());
 
     if let Some(w) = worker {
-        // worker: "<kind>:<i>/<n>"
-        let (kind_s, rest) = w.split_once(':').unwrap();
+        // worker: "<section key>:<i>/<n>"
+        let (key, rest) = w.split_once(':').unwrap();
         let (i, n) = rest.split_once('/').unwrap();
         let (i, n): (u64, u64) = (i.parse().unwrap(), n.parse().unwrap());
-        let kind = if kind_s == "dir" { Kind::ZoneinfoDir } else { Kind::Concatenated };
-        let sec = if kind == Kind::ZoneinfoDir { "seq-zoneinfo-dir" } else { "seq-concatenated" };
-        let root = PathBuf::from(format!("/verif/.build/c19/{}-{}-{}", kind_s, std::process::id(), i));
+        let s = sects.iter().find(|s| s.key == key).expect("section key");
+        let root = PathBuf::from(format!("{}/{}-{}-{}", scratch_base(), key, std::process::id(), i));
         let _ = std::fs::remove_dir_all(&root);
         std::fs::create_dir_all(&root).unwrap();
-        let mut disk = Disk { kind, root: root.clone(), mtime_ctr: 0, older: false, state: [St::Absent; 3] };
-        let mut lookups = 0;
+        if s.open == Open::FromEnv {
+            // single-threaded here; from_env() reads TZDIR at every call
+            std::env::set_var("TZDIR", &root);
+        }
+        let mut disk = Disk::new(s.kind, root.clone());
+        let mut tl = Tally::default();
         let mut hists = 0;
-        // the concatenated back-end gets one level less depth (its get() path has no name index)
-        let (d, tot) = if kind == Kind::Concatenated { (depth - 1, (alpha.len() as u64).pow(depth as u32 - 1)) } else { (depth, total) };
+        let tot = s.total();
         let mut idx = i;
         while idx < tot {
-            let evs = history_of(idx, &alpha, d);
-            let id = format!("{}#{}", kind_s, idx);
+            let mut evs = s.prefix.clone();
+            evs.extend(history_of(idx, &s.alpha, s.depth));
+            let id = format!("{}#{}", key, idx);
             if r.only_case.is_none() || r.only_case.as_deref().map_or(false, |c| c.starts_with(&format!("{} ", id))) {
-                lookups += run_history(&r, sec, &mut disk, &evs, &id);
+                run_history(&r, s, &mut disk, &evs, &id, &mut tl);
                 hists += 1;
             }
             idx += n;
         }
         let _ = std::fs::remove_dir_all(&root);
         r.add_states(hists);
-        r.add_transitions(hists * d as u64);
-        r.add_validated(lookups);
-        r.count(&format!("histories_{}", kind_s), hists);
+        r.add_transitions(hists * (s.depth + s.prefix.len()) as u64);
+        r.add_validated(tl.checked);
+        r.count(&format!("histories_{}", key), hists);
+        r.count("reuse_required", tl.reuse_required);
+        r.count("reuse_required_content_differs", tl.reuse_required_content_differs);
+        r.count("reuse_required_after_ttl", tl.reuse_required_after_ttl);
+        r.count(&format!("reuse_required_content_differs[{}]", key), tl.reuse_required_content_differs);
+        r.count(&format!("lookups_unloadable_determined[{}]", key), tl.lookups_unloadable_determined);
+        r.count(&format!("lookups_after_reset_of_stealth_change[{}]", key), tl.lookups_after_reset_of_stealth_change);
+        r.count(&format!("twin_answers[{}]", key), tl.twin_answers);
+        r.count(&format!("conformance_note_twin_lookup_fails_while_one_twin_loadable[{}]", key), tl.twin_none_while_one_twin_loadable);
+        r.count(&format!("available_excluded_empty_disk[{}]", key), tl.available_excluded_empty_disk);
+        r.count(&format!("available_checked[{}]", key), tl.available_checked);
         r.finish();
     }
 
-    // parent: spawn worker processes and merge their result files
+    // parent: in-process sections, then worker processes whose result files are merged
+    r.section("open-edge", || open_edge(&r));
+    r.section("seq-bundled", || seq_bundled(&r));
+
     let nworkers = 16u64;
     let exe = std::env::current_exe().unwrap();
     let tier = if r.quick() { "quick" } else { "thorough" };
     let mut merged_viol: Vec<Value> = vec![];
-    for kind_s in ["dir", "concat"] {
-        let sec = if kind_s == "dir" { "seq-zoneinfo-dir" } else { "seq-concatenated" };
-        if let Some(s) = &r.only_section {
-            if s != sec {
+    for s in &sects {
+        let (key, sec) = (s.key, s.name);
+        if let Some(os) = &r.only_section {
+            if os != sec {
+                continue;
+            }
+        }
+        if let Some(c) = &r.only_case {
+            if !c.starts_with(&format!("{}#", key)) {
                 continue;
             }
         }
         let t0 = std::time::Instant::now();
         let mut kids = vec![];
         for i in 0..nworkers {
-            let out = format!("/verif/.build/out/C19-worker-{}-{}.json", kind_s, i);
+            let out = format!("{}/C19-worker-{}-{}-{}.json", scratch_base(), std::process::id(), key, i);
             let _ = std::fs::remove_file(&out);
             let mut cmd = std::process::Command::new(&exe);
-            cmd.args(["--tier", tier, "--out", &out, "--worker", &format!("{}:{}/{}", kind_s, i, nworkers)]);
+            cmd.args(["--tier", tier, "--out", &out, "--worker", &format!("{}:{}/{}", key, i, nworkers)]);
             if let Some(c) = &r.only_case {
                 cmd.args(["--only-case", c]);
             }
@@ -472,7 +1270,7 @@ fn main() {
             }
             let _ = std::fs::remove_file(&out);
         }
-        eprintln!("[C19] section {} done in {:.2}s", sec, t0.elapsed().as_secs_f64());
+        eprintln!("[C19] section {} done in {:.2}s ({} histories)", sec, t0.elapsed().as_secs_f64(), r.get_count(&format!("histories_{}", key)));
     }
     // re-inject the workers' violations (minimal case per signature is kept by Report)
     let only = r.only_case.clone();
@@ -489,10 +1287,30 @@ fn main() {
             r.count(&format!("violations[{}]", v["sig"].as_str().unwrap()), n);
         }
     }
-    r.sample(json!({"alphabet": format!("{:?}", alpha), "depth": depth, "histories_zoneinfo_dir": total,
+    let total = sects[0].total();
+    r.sample(json!({"alphabet": format!("{:?}", sects[0].alpha), "depth": sects[0].depth, "histories_zoneinfo_dir": total,
         "monitor": "answer in {state of the name's data on disk at some time in [max(t-TTL, t_reset), t]}; case variants agree; canonical spelling; no panic"}));
+    r.sample(json!({"sections": sects.iter().map(|s| json!({"section": s.name, "alphabet": format!("{:?}", s.alpha), "fixed_prefix": format!("{:?}", s.prefix), "depth": s.depth, "histories": s.total(), "initial_disk": format!("{:?}", s.init)})).collect::<Vec<_>>(),
+        "reuse_monitor": "an entry that answered with the content belonging to the modification time still on disk keeps answering with it until the modification time changes or reset() is called; stealth replacement (new content, same modification time) makes re-reading observable",
+        "excluded": "content changed under an unchanged modification time is not required to be noticed before reset() (revalidation is by modification time by design); two names differing only in case: either may answer; available() while the disk holds no zone keeps the last good list"}));
     if r.only_section.is_none() && r.only_case.is_none() {
         r.require(r.get_count("histories_dir") == total, "all zoneinfo-dir histories executed");
+        for s in &sects {
+            r.require(r.get_count(&format!("histories_{}", s.key)) == s.total(), &format!("all {} histories executed", s.name));
+        }
+        for key in ["dir-deep", "concat-deep"] {
+            r.require(r.get_count(&format!("reuse_required_content_differs[{}]", key)) > 0, &format!("{}: reuse was demanded while the content differed under the same modification time", key));
+            r.require(r.get_count(&format!("lookups_unloadable_determined[{}]", key)) > 0, &format!("{}: lookups of unparsable data / a directory were determined to fail", key));
+            r.require(r.get_count(&format!("lookups_after_reset_of_stealth_change[{}]", key)) > 0, &format!("{}: reset() after a stealth change made the new content mandatory", key));
+            r.require(r.get_count(&format!("twin_answers[{}]", key)) > 0, &format!("{}: the case twin answered some lookups", key));
+        }
+        r.require(r.get_count("reuse_required_after_ttl") > 0, "reuse was demanded across an elapsed TTL");
+        for key in ["dir-solo", "concat-solo"] {
+            r.require(r.get_count(&format!("available_excluded_empty_disk[{}]", key)) > 0, &format!("{}: the disk became empty", key));
+            r.require(r.get_count(&format!("available_checked[{}]", key)) > 0, &format!("{}: available() was checked", key));
+        }
+        r.require(r.get_count("open_edge_cases") >= 14, "constructor edge cases ran");
+        r.require(r.get_count("bundled_lookups") > 0, "bundled histories ran");
     }
     r.finish();
 }
